@@ -10,6 +10,10 @@ def check(tier, seed):
     # wrappers read the wrapped series at the requested order only
     from .format_props import specs_keys, specs_blocks, specs_projection
     specs += specs_keys(tier) + specs_blocks(tier) + specs_projection(tier)
+    # the second-quantization wrapper of the Hamiltonian reads the caller's series exactly once, at the requested index (and the exit wrapper likewise)
+    t_sq = 60000 if tier == "thorough" else 20000
+    specs += [("contracts.secondq", "unit_h_eval", {"kind": k, "scalar_input": si, "timeout_ms": t_sq}) for k, si in (("zero", False), ("scalar", True), ("matrix", False), ("immutable", False), ("ndarray", False), ("sparse", False))]
+    specs += [("contracts.secondq", "unit_postprocessing_eval", {"kind": k, "scalar_input": si, "timeout_ms": t_sq}) for k, si in (("zero", True), ("matrix1x1", True), ("matrix", False))]
     d.add_units(fold_canaries(run_units(specs)))
     d.assumptions += [
         "typing assumption of the definition-time check: the BlockSeries-typed variables are those declared in contracts/definition_time.py",
